@@ -77,11 +77,9 @@ fn match_leaf_meta_var<'tree, D: Doc>(
         Some(())
       }
     }
-    // Ellipsis will be matched in parent level
-    MV::Multiple => {
-      debug_assert!(false, "Ellipsis should be matched in parent level");
-      Some(())
-    }
+    // Ellipsis is matched in parent level, except when the whole pattern is a single `$$$`
+    // (e.g. `sg run -p '$$$'`): at the root it stands for the node itself and binds nothing
+    MV::Multiple => Some(()),
     MV::MultiCapture(name) => {
       env.to_mut().insert(name, candidate.clone())?;
       Some(())
